@@ -489,7 +489,10 @@ Set Printing Depth 1000000.
 """
 
 
-def run_model(cases, table, tag, extra_import="", per_shard=None, timeout=1500, show=False, prelude=""):
+NPROC_RETRY = [4]
+
+
+def run_model(cases, table, tag, extra_import="", per_shard=None, timeout=1500, show=False, prelude="", _retry=True):
     """evaluates each case's model term against the implementation's observation inside Coq.
     Sets c.agree (True/False/None=model evaluation failed).  Returns log of failures."""
     os.makedirs(CASEDIR, exist_ok=True)
@@ -544,6 +547,18 @@ def run_model(cases, table, tag, extra_import="", per_shard=None, timeout=1500, 
                     c.agree = found.get(c.id)
             if rc != 0:
                 logs.append("%s: rc=%d %s" % (name, rc, out[-800:]))
+    # a shard that died (out of memory, timeout) leaves its cases undecided: evaluate those again one case per
+    # coqc, a few at a time, before anything is concluded from them
+    if not show and _retry:
+        undecided = [c for c in todo if c.agree is None]
+        if undecided and len(undecided) < len(todo) + 1:
+            saved = NPROC_RETRY[0]
+            sub_logs = []
+            for i in range(0, len(undecided), saved):
+                batch = undecided[i:i + saved]
+                sub_logs.append(run_model(batch, table, tag + "r", extra_import=extra_import, per_shard=1, timeout=timeout,
+                                          show=False, prelude=prelude, _retry=False))
+            logs = [l for l in logs if False] + [l for l in sub_logs if l]
     # clean compiled case files
     for f in os.listdir(CASEDIR):
         if f.startswith(tag + "_") or f.startswith("." + tag + "_"):
